@@ -91,6 +91,7 @@ type vfSessOpts struct {
 	Drag     bool  `json:"drag,omitempty"`
 	Zmodem   bool  `json:"zmodem,omitempty"`
 	OSC52    bool  `json:"osc52,omitempty"`
+	DestSpell int  `json:"dest_spell,omitempty"` // how the destination is spelled where it is handed over: 0 clean, 1 trailing separator, 2 "/./" inside, 3 doubled separator
 	TraceLog bool  `json:"tracelog,omitempty"`
 	Tunnel   bool  `json:"tunnel,omitempty"`
 	Relays   int   `json:"relays,omitempty"`
@@ -517,4 +518,18 @@ func vfTransferGoroutines() []string {
 		}
 	}
 	return out
+}
+
+// vfSpellDest returns the same directory spelled the way a user, a shell completion or a configuration file may spell it.
+func vfSpellDest(dest string, spell int) string {
+	sep := string(os.PathSeparator)
+	switch spell {
+	case 1:
+		return dest + sep
+	case 2:
+		return filepath.Dir(dest) + sep + "." + sep + filepath.Base(dest)
+	case 3:
+		return filepath.Dir(dest) + sep + sep + filepath.Base(dest)
+	}
+	return dest
 }
